@@ -529,3 +529,57 @@ package pipeline
 //@         !out.items[ordered.live(m.items, x)].deleted && out.index[tfT(tf, m.items[x].Key)] == ordered.live(m.items, x))
 //@     invariant [nokey] old(injOnOM(tf, m)) ==> (forall x int :: {m.items[x]} $idx <= x && x < len(m.items) && !m.items[x].deleted ==> !has(out.index, tfT(tf, m.items[x].Key)))
 //@     decreases len(m.items) - $idx
+
+// ---- C10: the pipeline env block ----
+
+//@ func (InterpolationEnv).Get
+//@   pure
+//@   ensures [fn] ret1 == envHas(gstate(envst, envid(recv)), name) && ret0 == envGet(gstate(envst, envid(recv)), name)
+//@   note ASSUMPTION: Get observes the environment's current state and changes nothing
+
+//@ func (InterpolationEnv).Set
+//@   assigns ghost envst[envid(recv)]
+//@   ensures [set]  forall n string :: {envHas(gstate(envst, envid(recv)), n)} envEq(recv, n, name) ==>
+//@       envHas(gstate(envst, envid(recv)), n) && envGet(gstate(envst, envid(recv)), n) == value
+//@   ensures [keep] forall n string :: {envHas(gstate(envst, envid(recv)), n)} !envEq(recv, n, name) ==>
+//@       envHas(gstate(envst, envid(recv)), n) == old(envHas(gstate(envst, envid(recv)), n)) &&
+//@       envGet(gstate(envst, envid(recv)), n) == old(envGet(gstate(envst, envid(recv)), n))
+//@   note ASSUMPTION: Set(name, value) makes every name the environment considers equal to name map to value, changes no other name, and writes no memory of the pipeline
+
+//@ define stE(E) := gstate(envst, envid(E))
+
+//@ func (*Pipeline).interpolateEnvBlock$1
+//@   requires p != nil && p.Env != nil && ordered.wf(p.Env) && interpolationEnv != nil
+//@   assigns ghost envst[envid(interpolationEnv)], p.Env.index, p.Env.items, *p.Env.index, p.Env.items[..]
+//@   ensures [wf] ordered.wf(p.Env)
+//@   ensures [err] !(envOK(old(stE(interpolationEnv)), k) && envOK(old(stE(interpolationEnv)), v)) ==>
+//@       ret != nil && stE(interpolationEnv) == old(stE(interpolationEnv)) && p.Env.items == old(p.Env.items) && len(p.Env.index) == old(len(p.Env.index))
+//@   ensures [ok]  envOK(old(stE(interpolationEnv)), k) && envOK(old(stE(interpolationEnv)), v) ==> ret == nil
+//@   ensures [rewritten] ret == nil ==> (let ik := envT(old(stE(interpolationEnv)), k) in let iv := envT(old(stE(interpolationEnv)), v) in
+//@       has(p.Env.index, ik) && p.Env.items[p.Env.index[ik]].Key == ik && p.Env.items[p.Env.index[ik]].Value == iv &&
+//@       (old(has(p.Env.index, k)) ==> p.Env.index[ik] == old(p.Env.index[k]) && arr(p.Env.items) == old(arr(p.Env.items)) && len(p.Env.items) == old(len(p.Env.items))))
+//@   ensures [runtime-wins] ret == nil && preferRuntimeEnv && envHas(old(stE(interpolationEnv)), envT(old(stE(interpolationEnv)), k)) ==>
+//@       stE(interpolationEnv) == old(stE(interpolationEnv))
+//@   ensures [exported] ret == nil && !(preferRuntimeEnv && envHas(old(stE(interpolationEnv)), envT(old(stE(interpolationEnv)), k))) ==>
+//@       (forall n string :: {envHas(stE(interpolationEnv), n)} envEq(interpolationEnv, n, envT(old(stE(interpolationEnv)), k)) ==>
+//@           envHas(stE(interpolationEnv), n) && envGet(stE(interpolationEnv), n) == envT(old(stE(interpolationEnv)), v)) &&
+//@       (forall n string :: {envHas(stE(interpolationEnv), n)} !envEq(interpolationEnv, n, envT(old(stE(interpolationEnv)), k)) ==>
+//@           envHas(stE(interpolationEnv), n) == envHas(old(stE(interpolationEnv)), n) && envGet(stE(interpolationEnv), n) == envGet(old(stE(interpolationEnv)), n))
+
+//@ func (*Pipeline).interpolateEnvBlock
+//@   requires p != nil && interpolationEnv != nil && (p.Env != nil ==> ordered.wf(p.Env))
+//@   assigns ghost envst[envid(interpolationEnv)], all(*ordered.Map[string,string]), all([]ordered.Tuple[string,string]), all(map[string]int)
+//@   ensures [wf] p.Env == old(p.Env) && (p.Env != nil ==> ordered.wf(p.Env))
+//@   loop Range.0
+//@     assigns ghost envst[envid(interpolationEnv)], all(*ordered.Map[string,string]), all([]ordered.Tuple[string,string]), all(map[string]int)
+//@     invariant [wf] p.Env == old(p.Env) && p.Env != nil && ordered.wf(p.Env) && 0 <= $idx
+
+//@ func (envInterpolator).Transform
+//@   pure
+//@   assigns nothing
+//@   ensures [ok]  (ret1 == nil) == envOK(stE(e.env), s)
+//@   ensures [val] ret1 == nil ==> ret0 == envT(stE(e.env), s)
+
+//@ func (*Pipeline).Interpolate
+//@   requires p != nil && (p.Env != nil ==> ordered.wf(p.Env))
+//@   assigns everything
